@@ -628,7 +628,7 @@ def action_corpus(pid, tier, seed, workdir):
     g1 = gen_grammars(70 if q else 700, seed * 1000 + 31, SAFE_ACTION_OPS, 3 if q else 4, rnd, [1, 2, 3, 4], veto=True)
     # (1b) two action families: action< act1, ... > nested with enable / disable / at / not_at; vetoing bool actions in both
     g1b = gen_grammars(40 if q else 400, seed * 1000 + 33, CORE_OPS + ["enable", "disable", "action", "action", "action", "list", "pad", "if_must"],
-                       3 if q else 4, rnd, [1, 2, 3, 4], veto=True, fam1=True)
+                       3, rnd, [1, 2, 3, 4], veto=True, fam1=True)  # depth 3 in both tiers: deeper ones produced half-hour targets
     g1c = nesting_shapes(rnd, quads=0 if q else 600)
     # (2) void-only logging actions anywhere, all operators
     g2 = gen_grammars(50 if q else 500, seed * 1000 + 37, CORE_OPS + CONV_OPS + ["enable", "disable"], 3 if q else 4, rnd, [1, 2])
